@@ -69,6 +69,11 @@ pub fn facts(layout: &str, pi: &PublicInput) -> LayoutFacts {
                     Builtin { name: "ecdsa", seg: m::segments::ECDSA, cells: 2, row_ratio: g(d.uses_ecdsa_builtin, d.ecdsa_builtin_row_ratio) },
                     Builtin { name: "bitwise", seg: m::segments::BITWISE, cells: 5, row_ratio: g(d.uses_bitwise_builtin, d.bitwise_row_ratio) },
                     Builtin { name: "ec_op", seg: m::segments::EC_OP, cells: 7, row_ratio: g(d.uses_ec_op_builtin, d.ec_op_builtin_row_ratio) },
+                    Builtin { name: "keccak", seg: m::segments::KECCAK, cells: 16, row_ratio: g(d.uses_keccak_builtin, d.keccak_row_ratio) },
+                    Builtin { name: "poseidon", seg: m::segments::POSEIDON, cells: 6, row_ratio: g(d.uses_poseidon_builtin, d.poseidon_row_ratio) },
+                    Builtin { name: "range_check96", seg: m::segments::RANGE_CHECK96, cells: 1, row_ratio: g(d.uses_range_check96_builtin, d.range_check96_builtin_row_ratio) },
+                    Builtin { name: "add_mod", seg: m::segments::ADD_MOD, cells: 7, row_ratio: g(d.uses_add_mod_builtin, d.add_mod_row_ratio) },
+                    Builtin { name: "mul_mod", seg: m::segments::MUL_MOD, cells: 7, row_ratio: g(d.uses_mul_mod_builtin, d.mul_mod_row_ratio) },
                 ];
             }
             LayoutFacts { n_segments: m::segments::N_SEGMENTS, code: m::LAYOUT_CODE, cpu_step: d.map(|d| d.cpu_component_step as u64).unwrap_or(1), output_seg: m::segments::OUTPUT, dynamic: true, builtins }
@@ -303,6 +308,24 @@ fn probe<L: LayoutTrait>(h: &Honest, rng: &mut Rng, rep: &mut Report, thorough: 
                 p.log_n_steps = Felt::from(small_t - 4 - f.cpu_step.trailing_zeros() as u64);
                 p.segments[b.seg].stop_ptr = p.segments[b.seg].begin_addr + Felt::from(b.cells);
                 push(&mut edits, format!("{}: one instance with a trace of 2^{small_t} rows (row ratio {r})", b.name), p, small_t);
+            }
+        }
+    }
+    // dynamic layout: a builtin that is declared unused holds no instance, whatever its row ratio says
+    if f.dynamic {
+        let d0 = serde_json::to_value(pi0.dynamic_params.as_ref().unwrap()).unwrap();
+        for b in &f.builtins {
+            let ratio_key = d0.as_object().unwrap().keys().find(|k| k.starts_with(b.name) && k.ends_with("row_ratio") && (b.name != "range_check" || !k.contains("96")) ).cloned();
+            let flag_key = format!("uses_{}_builtin", b.name);
+            let Some(rk) = ratio_key else { continue };
+            for (flag, ratio, claim) in [(0u64, 1024u64, 1u64), (0, 16, 1), (0, 0, 1), (1, 1024, 1), (1, 1u64 << 20, 1)] {
+                let mut d = d0.clone();
+                d[&flag_key] = flag.into();
+                d[&rk] = ratio.into();
+                let mut p = clone_pi(pi0);
+                p.dynamic_params = serde_json::from_value(d).ok();
+                p.segments[b.seg].stop_ptr = p.segments[b.seg].begin_addr + Felt::from(claim * b.cells);
+                push(&mut edits, format!("{}: uses flag {flag}, row ratio {ratio}, {claim} instance claimed", b.name), p, t);
             }
         }
     }
